@@ -186,6 +186,13 @@ let hist_monitors (steps : pstep list) (truths : string list) (mres : string lis
               add "next-committee-not-cleared-on-rotation" (Printf.sprintf "%s next=%s update-carries=%s" where (String.sub d.next 0 (min 8 (String.length d.next))) (let x = next_of_update st in String.sub x 0 (min 8 (String.length x))));
             if d.cur = p.cur && d.next <> p.next && not (p.next = "-" && d.next = next_of_update st) then
               add "next-committee-changed-without-rotation" where;
+            (* history safety (hands_over): a missing next committee may only be filled from an update ATTESTED IN THE STORE'S PERIOD -
+               the next committee of an older state is the committee of the store's own period, not the next one *)
+            (match st.conv with
+             | Ok u when res = "ok" && d.cur = p.cur && p.next = "-" && d.next <> "-" ->   (* verified, not force-applied by the harness *)
+               let ap = int_n (calc_sync_period u.u_attested.h_slot) and sp = int_n (calc_sync_period (n_ p.fslot)) in
+               if ap <> sp then add "next-committee-from-wrong-period" (Printf.sprintf "%s attested-period=%d store-period=%d" where ap sp)
+             | _ -> ());
             if starts res "err" && not st.force && (d <> p) then add "store-changed-by-rejected-update" where;
             prev := Some d
           | _, None -> add "lightclient-panics" (where ^ " unreadable digest")
